@@ -356,5 +356,4 @@ Definition ctor_types : list (string * string) := [
 (* methods whose code differs from the documented behaviour in the tree as it
    is (known_findings.d/C20.json); [] once proposed_fixes/C20-1.diff,
    C20-2.diff and C20-3.diff are applied *)
-Definition known_deviations : list (string * string) :=
-  [("BitEntry", "SetNumBits"); ("Entry", "Rename"); ("SBitEntry", "SBitEntry")].
+Definition known_deviations : list (string * string) := [].
